@@ -3,7 +3,7 @@ impl  = ELFFile(BytesIO) -> DynamicSection / DynamicSegment (fresh objects for e
 model = extracted Model/C09Dynamic.v;  spec = the abstract image the generator drew (records are
 encoded by the Coq gABI layouts through the driver) and Spec/C09Dyn.v (cut at DT_NULL, strings,
 consistent_b / sym_consistent_b / stripped_of_b decide the domain)."""
-import io, os, random
+import io, os, random, signal
 from tools.lib.framework import impl_call, REPO
 
 CLAIMED = True
@@ -33,8 +33,13 @@ LEVEL = {'text': 'Machine-checked theorems over unbounded inputs (Props/C09.v, n
                  'string table, DT_SYMTAB mapped to it, names inside the table, a GNU - else SysV - hash table valid for the entry '
                  'count) the symbols enumerated from the DynamicSegment of the stripped byte image (count from the hash table, '
                  'get_symbol through DT_SYMTAB/DT_STRTAB) are exactly those of the SHT_DYNSYM section of the original '
-                 '(C09_views_agree_symbols).  NOT Coq theorems, pinned by correspondence only: get_symbol_by_name (a filter over '
-                 'the proved symbol list), num_tags()/get_tag(n) for n below the count (the same reads as the iterator), the '
+                 '(C09_views_agree_symbols).  For every image satisfying seg_consistent_b (no SHT_DYNAMIC section at the offset of '
+                 'PT_DYNAMIC: headers absent, or ANOTHER array elsewhere linked to ANOTHER string table) the DynamicSegment yields '
+                 'the segment\'s own entries with the strings of the table its own DT_STRTAB/DT_STRSZ designate '
+                 '(C09_segment_view_alone).  NOT Coq theorems, pinned by correspondence only: get_symbol_by_name (the model is a '
+                 'filter over the proved symbol list; the implementation is asked for names carried by several symbols first thing '
+                 'on a fresh object, again after a miss and a second time on the same object, on images with real GNU/SysV hash '
+                 'tables), the DynamicSection view of the foreign form, num_tags()/get_tag(n) for n below the count (the same reads as the iterator), the '
                  'segment-of-the-original view of symbols, and the nearest-pointer heuristic used without hash tables (outside '
                  'the property: it cannot give the true count in general).  '
                  'The hand model is pinned to dynamic.py/hash.py/elffile.py by differential runs on synthesized images in three '
@@ -47,8 +52,12 @@ RULE = ('cases: synthesized dynamic images (both classes/byte orders; common, MI
         'tag sets; duplicate tags; entries and garbage after the terminator; 1-3 PT_LOAD groups with distinct address deltas, '
         'decoy and duplicate segments, shuffled program headers; GNU / SysV / both / no hash table; REL/RELA/RELR/JMPREL '
         'tables) observed through three views each: DynamicSection of the image, DynamicSegment of the image, DynamicSegment '
-        'of the image with e_shoff=e_shnum=e_shstrndx=0; a third of the images carry the .dynamic section at an offset '
-        'different from the segment\'s; a malformed stream (no terminator, unmapped pointers, bad links, bad indices) is '
+        'of the image with e_shoff=e_shnum=e_shstrndx=0; a quarter of the images carry a copy of the array in a .dynamic section at an offset different from the segment\'s, '
+        'another quarter ("foreign") carry there ANOTHER array linked to ANOTHER string table with other strings at the same '
+        'indices (segment views certified by seg_consistent_b and compared against the table DT_STRTAB designates); hash tables '
+        'are real ones (standard hash functions, bloom filter, buckets, chains), a third of the symbols share their name with '
+        'another one, get_symbol_by_name is asked first thing on a fresh object and again after a miss; every observation of the '
+        'implementation is bounded by a 10 s timer; a malformed stream (no terminator, unmapped pointers, bad links, bad indices) is '
         'out of domain; plus the seed libraries.  distinct = hash(kind, abstract); non-trivial = more than 3 tags or a hash '
         'table or a relocation table')
 
@@ -67,6 +76,51 @@ STRINGS = [b'libc.so.6', b'libm.so.6', b'libfoo.so.1', b'/opt/lib:$ORIGIN/../lib
 
 def _d(a):
     return {k: v for k, v in a}
+
+
+def _elf_hash(name):
+    """SysV hash function of the gABI (chapter 5, Hash Table)."""
+    h = 0
+    for c in bytearray(name):
+        h = (h << 4) + c
+        x = h & 0xF0000000
+        if x:
+            h ^= x >> 24
+        h &= 0x0FFFFFFF
+    return h
+
+
+def _gnu_hash(name):
+    """dl_new_hash of glibc / binutils (DT_GNU_HASH)."""
+    h = 5381
+    for c in bytearray(name):
+        h = (h * 33 + c) & 0xFFFFFFFF
+    return h
+
+
+def _swapcase(tab):
+    """another string table with other strings at the same indices (still valid UTF-8)"""
+    return bytes((b ^ 0x20) if (65 <= b <= 90 or 97 <= b <= 122) else b for b in tab)
+
+
+class ImplTimeout(Exception):
+    pass
+
+
+IMPL_SECONDS = 10
+
+
+class _limit:
+    """bound one observation of the implementation: a loop that does not end becomes ImplTimeout"""
+    def __enter__(self):
+        def handler(signum, frame):
+            raise ImplTimeout()
+        self.old = signal.signal(signal.SIGALRM, handler)
+        signal.setitimer(signal.ITIMER_REAL, IMPL_SECONDS)
+    def __exit__(self, *a):
+        signal.setitimer(signal.ITIMER_REAL, 0)
+        signal.signal(signal.SIGALRM, self.old)
+        return False
 
 
 # ------------------------------------------------------------------ generation
@@ -104,22 +158,23 @@ def _gen_image(ctx, rng, malformed):
             if i == 0 and rng.random() < 0.8:
                 syms.append([0, 0, 0, 0, 0, 0, 0, 0, 0])
             else:
-                syms.append([stridx(), rng.getrandbits(8 * w), rng.getrandbits(8 * w if is64 else 32), rng.randrange(16),
+                # a name carried by several symbols (versioned foo@V1 / foo@@V2) is frequent
+                nm = syms[rng.randrange(len(syms))][0] if len(syms) > 1 and rng.random() < 0.35 else stridx()
+                syms.append([nm, rng.getrandbits(8 * w), rng.getrandbits(8 * w if is64 else 32), rng.randrange(16),
                              rng.randrange(16), rng.randrange(8), rng.randrange(4), rng.randrange(8),
                              rng.choice([0, 1, 5, 0xfff1, 0xfff2, 0xffff, rng.randrange(0x10000)])])
     hk = rng.choice(['gnu', 'sysv', 'both', 'none', 'gnu', 'sysv'])
     gnu = sysv = None
+    # hash tables are REAL ones (built in _plan from the names with the standard hash functions): a reader
+    # may use them; gnu = [symoffset, bloom_shift, bloom_size, nbuckets], sysv = [nbuckets]
     if syms is not None and nsym >= 1 and hk in ('gnu', 'both'):
-        so = rng.randint(1, nsym)
-        hashed = nsym - so
+        so = rng.choice([1, 1, rng.randint(1, nsym)])
         nb = rng.randint(1, 4)
-        cuts = sorted(rng.randint(0, hashed) for _ in range(nb - 1))
-        sizes = [b - a for a, b in zip([0] + cuts, cuts + [hashed])]
-        gnu = [so, rng.randrange(32), [rng.getrandbits(8 * w) for _ in range(rng.randint(1, 3))], sizes,
-               [rng.getrandbits(32) for _ in range(hashed)]]
+        # the hashed symbols are grouped by bucket, as the format demands
+        syms[so:] = sorted(syms[so:], key=lambda sy: _gnu_hash(_cstr(tab, sy[0])) % nb)
+        gnu = [so, rng.randrange(32), rng.randint(1, 3), nb]
     if syms is not None and hk in ('sysv', 'both'):
-        nbk = rng.randint(0, 4)
-        sysv = [[rng.randrange(max(nsym, 1)) for _ in range(nbk)], [rng.randrange(max(nsym, 1)) for _ in range(nsym)]]
+        sysv = [rng.randint(1, 4)]
     # relocation tables
     rels = []
     def relents(n, rela):
@@ -204,8 +259,9 @@ def _gen_image(ctx, rng, malformed):
                                    [DT['SYMTAB'], rng.getrandbits(20)], [DT['RELA'], rng.getrandbits(20)]]))
         return out
     extras = extra_list()
-    form = rng.choice(['same', 'same', 'shifted'])
-    extras2 = extra_list() if form == 'shifted' else []
+    # 'foreign': the .dynamic section is ANOTHER array elsewhere, linked to ANOTHER string table
+    form = rng.choice(['same', 'same', 'shifted', 'foreign'])
+    extras2 = extra_list() if form != 'same' else []
     # file layout
     tables = ['dyn', 'strtab']
     if syms is not None:
@@ -215,6 +271,8 @@ def _gen_image(ctx, rng, malformed):
     if sysv is not None:
         tables.append('sysv')
     tables += [r[0] for r in rels]
+    if form == 'foreign':
+        tables.append('strtab2')
     rng.shuffle(tables)
     ng = rng.randint(1, min(3, len(tables)))
     cuts = sorted(rng.sample(range(1, len(tables)), ng - 1)) if ng > 1 else []
@@ -312,11 +370,16 @@ def _plan(a):
     sizes = {'dyn': (len(ents) + len(extras)) * dynsz, 'strtab': len(A['strtab'])}
     if A['syms'] is not None:
         sizes['symtab'] = len(A['syms']) * symsz
+    foreign = A['form'] == 'foreign'
+    P.tab2 = _swapcase(A['strtab']) if foreign else None
+    if foreign:
+        sizes['strtab2'] = len(P.tab2)
+    names_ = [_cstr(A['strtab'], sy[0]) for sy in A['syms']] if A['syms'] is not None else []
     if A['gnu'] is not None:
-        g = A['gnu']
-        sizes['gnu'] = 16 + len(g[2]) * w + len(g[3]) * 4 + len(g[4]) * 4
+        so_, shift_, nbloom_, nb_ = A['gnu']
+        sizes['gnu'] = 16 + nbloom_ * w + nb_ * 4 + (len(names_) - so_) * 4
     if A['sysv'] is not None:
-        sizes['sysv'] = 8 + 4 * (len(A['sysv'][0]) + len(A['sysv'][1]))
+        sizes['sysv'] = 8 + 4 * (A['sysv'][0] + len(names_))
     relsz = {}
     for r in A['rels']:
         k = r[0]
@@ -364,7 +427,7 @@ def _plan(a):
     P.addr = addr
     # the shifted copy of the dynamic array
     ents2 = extras2 = None
-    if A['form'] == 'shifted':
+    if A['form'] != 'same':
         extras2 = [list(e) for e in A['extras2']]
         cur += fill.choice([0, 5])
         off['dyn2'] = cur
@@ -434,7 +497,12 @@ def _plan(a):
         set_tag(DT['SYMENT'], symsz + 8)
     if mut == 'relent':
         set_tag(fill.choice([DT['RELENT'], DT['RELAENT'], DT['RELRENT']]), 5)
-    P.ents, P.extras, P.extras2 = ents, extras, extras2
+    ents2 = [list(e) for e in ents]
+    if foreign:
+        for e in ents2:
+            if e[0] == DT['STRTAB'] and e[1] == addr['strtab'] % 2 ** (8 * w):
+                e[1] = addr['strtab2'] % 2 ** (8 * w)
+    P.ents, P.extras, P.extras2, P.ents2 = ents, extras, extras2, ents2
     # program headers
     phs = []
     for g in range(nload):
@@ -454,8 +522,9 @@ def _plan(a):
     link = {nm: i for i, nm in reversed(list(enumerate(secs)))}
     def lk(nm):
         return link.get(nm, 0)
-    dynsec_off = off['dyn2'] if A['form'] == 'shifted' else off['dyn']
-    dynsec_size = sizes['dyn2'] if A['form'] == 'shifted' else sizes['dyn']
+    dynsec_off = off['dyn2'] if A['form'] != 'same' else off['dyn']
+    dynsec_size = sizes['dyn2'] if A['form'] != 'same' else sizes['dyn']
+    sk = 'strtab2' if foreign else 'strtab'
     rows = []
     seen_dyn = 0
     for nm in secs:
@@ -469,7 +538,7 @@ def _plan(a):
                 tl = 0
             rows.append([nameoff[nm], SHT['DYNAMIC'], dynsec_off, dynsec_size, tl, dynsz, 0])
         elif nm == '.dynstr':
-            rows.append([nameoff[nm], SHT['STRTAB'], off['strtab'], sizes['strtab'], 0, 0, addr['strtab']])
+            rows.append([nameoff[nm], SHT['STRTAB'], off[sk], sizes[sk], 0, 0, addr[sk]])
         elif nm == '.dynsym':
             rows.append([nameoff[nm], SHT['DYNSYM'], off['symtab'], sizes['symtab'], lk('.dynstr'), symsz, addr['symtab']])
         elif nm == '.gnu.hash':
@@ -520,7 +589,7 @@ def _plan(a):
     for i, e in enumerate(ents + extras):
         rec(('dyn', i), 'Dyn', [_signed(e[0], w), e[1]])
     if extras2 is not None:
-        for i, e in enumerate(ents + extras2):
+        for i, e in enumerate(ents2 + extras2):
             rec(('dyn2', i), 'Dyn', [_signed(e[0], w), e[1]])
     if A['syms'] is not None:
         for i, s in enumerate(A['syms']):
@@ -531,26 +600,35 @@ def _plan(a):
                 vals = [nm_, val, size, bind, typ, loc, pad, vis, shndx]
             rec(('sym', i), 'Sym', vals)
     if A['gnu'] is not None:
-        so, shift, bloom, gsz, words = A['gnu']
-        buckets = []
+        so, shift, nbloom, nb = A['gnu']
+        C = 8 * w
+        hs = [_gnu_hash(n) for n in names_[so:]]
+        buckets = [0] * nb
         chain = []
-        k = 0
-        for n in gsz:
-            buckets.append(so + k if n else 0)
-            for j in range(n):
-                wv = (words[k] & ~1) | (1 if j == n - 1 else 0)
-                if mut == 'chain_unterminated' and k == len(words) - 1:
-                    wv &= ~1
-                chain.append(wv)
-                k += 1
+        bloom = [0] * nbloom
+        for k, h in enumerate(hs):
+            if buckets[h % nb] == 0:
+                buckets[h % nb] = so + k
+            last = k == len(hs) - 1 or hs[k + 1] % nb != h % nb
+            wv = (h & ~1) | (1 if last else 0)
+            if mut == 'chain_unterminated' and k == len(hs) - 1:
+                wv &= ~1
+            chain.append(wv)
+            bloom[(h // C) % nbloom] |= (1 << (h % C)) | (1 << ((h >> shift) % C))
         P.gnu_chain = chain
-        rec(('gnu', 0), 'GnuHash', [len(buckets), so, len(bloom), shift, list(bloom), buckets])
+        rec(('gnu', 0), 'GnuHash', [nb, so, nbloom, shift, bloom, buckets])
         for i, c in enumerate(chain):
             reqs.append((('gnuc', i), ['enc_int', le, 4, c]))
     if A['sysv'] is not None:
-        bk, ch = A['sysv']
+        nb = A['sysv'][0]
+        bk = [0] * nb
+        ch = [0] * len(names_)
+        for i in range(len(names_) - 1, 0, -1):       # so that a chain runs in index order
+            h = _elf_hash(names_[i]) % nb
+            ch[i] = bk[h]
+            bk[h] = i
         nch = len(ch) + (1 if mut == 'nchain_off' else 0)
-        rec(('sysv', 0), 'Hash', [len(bk), nch, list(bk), list(ch) + ([0] if mut == 'nchain_off' else [])])
+        rec(('sysv', 0), 'Hash', [nb, nch, bk, ch + ([0] if mut == 'nchain_off' else [])])
     for r in A['rels']:
         k = r[0]
         rela = (k == 'RELA') or (k == 'JMPREL' and r[2])
@@ -583,6 +661,8 @@ def _assemble(P, enc):
         put(P.shoff + i * P.shentsize, enc[('sh', i)])
     put(P.off['shstrtab'], P.shstr)
     put(P.off['strtab'], A['strtab'])
+    if P.tab2 is not None:
+        put(P.off['strtab2'], P.tab2)
     n = len(P.ents) + len(P.extras)
     put(P.off['dyn'], b''.join(enc[('dyn', i)] for i in range(n)))
     if P.extras2 is not None:
@@ -603,12 +683,14 @@ def _assemble(P, enc):
 
 
 # ------------------------------------------------------------------ what the spec expects of a synthesized image
-def _expected(P, spec_tags, names):
+def _expected(P, spec_tags, names, ents=None, strkey='strtab'):
+    """what the abstract image says one view must yield: ents = the array the view reads (the segment's,
+    or the section's own one in the 'foreign' form), strkey = the string table that array designates"""
     A = P.A
     is64 = bool(A['is64'])
     w = 8 if is64 else 4
     mips64 = A['machine'] == 8 and is64
-    ents = P.ents
+    ents = P.ents if ents is None else ents
     core = [None] * 4
     core[0] = ['ok', spec_tags[1]] if spec_tags != 'none' else None
     ntags = len(spec_tags[1]) if spec_tags != 'none' else None
@@ -624,7 +706,7 @@ def _expected(P, spec_tags, names):
         if not hit:
             offs.append(['none', 'none'])
         else:
-            offs.append([['some', hit[0][1]], ['some', P.off[tabname[n]]]])
+            offs.append([['some', hit[0][1]], ['some', P.off[strkey if n == 'DT_STRTAB' else tabname[n]]]])
     core[2] = ['ok', offs]
     rel = []
     for k in ('REL', 'RELA', 'RELR', 'JMPREL'):
@@ -729,7 +811,8 @@ class NoDynsym(_NoSuch):
 
 def _ok(f):
     try:
-        return ['ok', f()]
+        with _limit():
+            return ['ok', f()]
     except Exception as e:   # noqa
         return ['err', type(e).__name__]
 
@@ -737,7 +820,8 @@ def _ok(f):
 def _observe_dyn(make, with_symbols, names):
     """make() -> a FRESH Dynamic object (new ELFFile, new stream)."""
     try:
-        make()
+        with _limit():
+            make()
     except Exception as e:   # noqa
         return ['err', type(e).__name__], None
     def relocs():
@@ -774,14 +858,23 @@ def _observe_dyn(make, with_symbols, names):
     core = [_ok(lambda: [_tagrepr(t) for t in make().iter_tags()]), _ok(numtags_and_gettag), _ok(offs), _ok(relocs)]
     syms = None
     if with_symbols:
-        def byname():
+        def lookup(d, n):
+            r = d.get_symbol_by_name(n.decode('utf-8'))
+            return 'none' if r is None else ['some', [_symrepr(s) for s in r]]
+        def byname_fresh():
+            # every name is the FIRST question put to a fresh object
+            return [lookup(make(), n) for n in names]
+        def byname_after_miss():
+            # one object: a miss first, then every name, then every name again
             d = make()
-            out = []
-            for n in names:
-                r = d.get_symbol_by_name(n.decode('utf-8'))
-                out.append('none' if r is None else ['some', [_symrepr(s) for s in r]])
-            return out
-        syms = [_ok(lambda: make().num_symbols()), _ok(lambda: [_symrepr(s) for s in make().iter_symbols()]), _ok(byname)]
+            lookup(d, b'no_such_symbol_either')
+            first = [lookup(d, n) for n in names]
+            again = [lookup(d, n) for n in names]
+            if first != again:
+                raise AssertionError('get_symbol_by_name depends on the call history')
+            return first
+        syms = [_ok(lambda: make().num_symbols()), _ok(lambda: [_symrepr(s) for s in make().iter_symbols()]),
+                _ok(byname_fresh), _ok(byname_after_miss)]
     return core, syms
 
 
@@ -807,7 +900,8 @@ def _observe_impl(data, names):
                 return [_symrepr(x) for x in s.iter_symbols()]
         raise NoDynsym()
     try:
-        ELFFile(io.BytesIO(data))
+        with _limit():
+            ELFFile(io.BytesIO(data))
     except Exception as e:   # noqa
         return ['err', type(e).__name__]
     sec_core, _ = _observe_dyn(mk_sec, False, names)
@@ -822,7 +916,7 @@ def _split_model(m):
     sec, seg, secsyms = m
     def core(x):
         return x if x[0] == 'err' else x[:4]
-    seg_syms = None if seg[0] == 'err' else seg[4]
+    seg_syms = None if seg[0] == 'err' else (seg[4] + [seg[4][2]] if isinstance(seg[4], list) and len(seg[4]) == 3 else seg[4])
     return [core(sec), core(seg), seg_syms, secsyms]
 
 
@@ -847,8 +941,8 @@ def _symkey(impl, spec):
         view = ['section-dynsym', 'segment', 'segment-stripped'][vi]
         if a == b:
             continue
-        if vi > 0 and isinstance(a, list) and isinstance(b, list) and len(a) == len(b) == 3:
-            for n, x, y in zip(['num_symbols', 'symbols', 'symbol_by_name'], a, b):
+        if vi > 0 and isinstance(a, list) and isinstance(b, list) and len(a) == len(b) == 4:
+            for n, x, y in zip(['num_symbols', 'symbols', 'symbol_by_name', 'symbol_by_name_after_miss'], a, b):
                 if x != y:
                     return view + '/' + n
         return view + '/symbols'
@@ -856,6 +950,17 @@ def _symkey(impl, spec):
 
 
 # ------------------------------------------------------------------ evaluation
+def _pick_names(seen):
+    """names to look up: those carried by several symbols first, then the smallest and the largest"""
+    uniq = sorted(set(seen))
+    dup = [n for n in uniq if seen.count(n) > 1]
+    out = []
+    for n in dup[:2] + uniq[:2] + uniq[-1:]:
+        if n not in out:
+            out.append(n)
+    return out[:4]
+
+
 def evaluate(ctx, cases):
     drv = ctx.driver
     plans = {}
@@ -887,8 +992,7 @@ def evaluate(ctx, cases):
             A = P.A
             names = []
             if A['syms']:
-                seen = [_cstr(A['strtab'], s[0]) for s in A['syms']]
-                names = sorted(set(seen))[:3]
+                names = _pick_names([_cstr(A['strtab'], s[0]) for s in A['syms']])
             names.append(b'no_such_symbol')
             work.append(dict(kind=kind, a=a, P=P, img=img, img2=img2, names=names, unfit=ci in unfit))
         else:
@@ -904,8 +1008,7 @@ def evaluate(ctx, cases):
     reqs = []
     for wk, m in zip(work, first):
         if wk['kind'] == 'file' and m[0] != 'err' and m[2][0] == 'ok':
-            nm = sorted(set(s[8] for s in m[2][1]))
-            wk['names'] = nm[:2] + nm[-1:] + [b'no_such_symbol']
+            wk['names'] = _pick_names([s[8] for s in m[2][1]]) + [b'no_such_symbol']
             reqs.append(['observe', wk['img'], wk['names']])
     redo = iter(drv.batch(reqs))
     models = []
@@ -917,15 +1020,20 @@ def evaluate(ctx, cases):
     for wk in work:
         reqs.append(['observe', wk['img2'], wk['names']])
         reqs.append(['wf', wk['img']])
+        reqs.append(['wf', wk['img2']])
         reqs.append(['stripped_of', wk['img'], wk['img2']])
         if wk['kind'] == 'img':
             A = wk['P'].A
             es = [[_signed(e[0], 8 if A['is64'] else 4), e[1]] for e in wk['P'].ents + wk['P'].extras]
             reqs.append(['spec_tags', bool(A['le']), bool(A['is64']), A['machine'], A['osabi'], es, A['strtab']])
+            if A['form'] == 'foreign':
+                es2 = [[_signed(e[0], 8 if A['is64'] else 4), e[1]] for e in wk['P'].ents2 + wk['P'].extras2]
+                reqs.append(['spec_tags', bool(A['le']), bool(A['is64']), A['machine'], A['osabi'], es2, wk['P'].tab2])
     ans = iter(drv.batch(reqs))
     for wk, m1 in zip(work, models):
         m2 = next(ans)
         wf = next(ans)
+        wf2 = next(ans)
         so = next(ans)
         kind, a = wk['kind'], wk['a']
         M1 = _split_model(m1)
@@ -945,16 +1053,27 @@ def evaluate(ctx, cases):
             st = next(ans)
             P = wk['P']
             core, syms = _expected(P, st, wk['names'])
+            sec_core = core
+            if P.A['form'] == 'foreign':
+                # the section holds another array linked to another table: each view is judged by its own
+                # array and the table that array designates; the domain of the segment views is the Coq
+                # predicate seg_consistent_b (original and stripped), the section view's is the generator's
+                st2 = next(ans)
+                sec_core, _ = _expected(P, st2, wk['names'], ents=P.ents2, strkey='strtab2')
+                in_core = bool(wf[2]) and bool(wf2[2]) and bool(so) and not wk['unfit'] and P.A['mut'] is None
+                in_sym = False
+                if sec_core[0] is None:
+                    in_core = False
             if core[0] is None:
                 spec_core = model_core
                 in_core = in_sym = False
             else:
-                spec_core = [core, core, core]
+                spec_core = [sec_core, core, core]
             if syms is None:
                 spec_sym = model_sym
                 in_sym = False
             else:
-                seg = [['ok', syms[0]], ['ok', syms[1]], ['ok', syms[2]]]
+                seg = [['ok', syms[0]], ['ok', syms[1]], ['ok', syms[2]], ['ok', syms[2]]]
                 spec_sym = [['ok', syms[1]], seg, seg]
             nt = len(P.ents) > 3 or P.A['gnu'] is not None or P.A['sysv'] is not None or bool(P.A['rels'])
             ctx.bump('form', P.A['form'])
@@ -973,7 +1092,7 @@ def evaluate(ctx, cases):
                 for n in wk['names']:
                     hit = [x for x in sl if x[8] == n]
                     byname.append(['some', hit] if hit else 'none')
-                seg = [['ok', len(sl)], ['ok', sl], ['ok', byname]]
+                seg = [['ok', len(sl)], ['ok', sl], ['ok', byname], ['ok', byname]]
                 spec_sym = [M1[3], seg, seg]
             else:
                 spec_sym = model_sym
